@@ -111,9 +111,28 @@ def tiled_case(rng):
             "tiled": True}
 
 
+def big_array_case(rng):
+    """An array of at least 2^22 row ids (16 MiB) that follows smaller non-empty arrays in entry order."""
+    n_small = int(rng.integers(1, 4))
+    entries = [((i, 2 * i), numpy.sort(rng.choice(10 ** 6, size=int(rng.integers(1, 300)), replace=False)).astype(U32))
+               for i in range(n_small)]
+    entries.append(((77, 1), numpy.arange(0, 2 ** 22 + int(rng.integers(0, 9)), dtype=U32)))
+    entries.append(((78, 0), numpy.array([5, 6], dtype=U32)))
+    return {"arity": 2, "entries": entries, "common": 3, "coord_class": 1, "common_class": 1, "big_array": True}
+
+
 def entries_dict(case):
     # (asarray keeps views as they are: a tiled case stays a set of views of one buffer)
+    if case.get("numpy_scalar_keys"):
+        # coordinates given as NumPy integer scalars (as they come out of arrays): same values
+        # (one scalar type throughout: NumPy promotes a mix of int64 and uint64 to float64, which is the
+        # caller's problem, not the file format's)
+        return {tuple(numpy.int64(int(c)) for c in k): numpy.asarray(v, dtype=U32) for k, v in case["entries"]}
     return {tuple(int(c) for c in k): numpy.asarray(v, dtype=U32) for k, v in case["entries"]}
+
+
+def plain_keys(ent):
+    return {tuple(int(c) for c in k): v for k, v in ent.items()}
 
 
 def save_bytes(case, path=None):
